@@ -4,6 +4,7 @@ import Rivaas.Spec.Compress
 /-
 Driver for C15. Case line:
   <id> <A|N> <minSize> <gzip> <br> <exclCT…> <exclPaths…> <exclExts…> <path> <accept-encoding> <recovery>
+       <nPre> {<key> <n> <val>*}*   (headers an outer middleware set before the chain reached the compression middleware)
        <nSniff> {<prefix> <type>}* <nOps> {op}*  =>  <obs without middleware> <obs with middleware>
   op  ::= H <key> <n> <val>* | D <key> | W <code> | B <bytes> | F | C <n> <bytes>* | X
   obs ::= P | E | R <status> <nh> {<key> <n> <val>*}* (0 | 1 <decoded body>) <nOuts> {<flag> <n> <err>}*
@@ -70,6 +71,7 @@ structure Case where
   path : Bytes
   ae : Bytes
   recovery : Bool
+  pre : Hdrs
   sniffTab : List (Bytes × Bytes)
   ops : List Op
 
@@ -84,9 +86,10 @@ def pCase : P Case := do
   let path ← str
   let ae ← str
   let rc ← bool
+  let pre ← list (do let key ← str; let vs ← list str; pure (key, vs))
   let tab ← list (do let p ← pBytes; let t ← str; pure (p, t))
   let ops ← list pOp
-  pure { asis := tag == "A", cfg := ⟨ms, gz, br, ect, ep, ee⟩, path := path, ae := ae, recovery := rc, sniffTab := tab, ops := ops }
+  pure { asis := tag == "A", cfg := ⟨ms, gz, br, ect, ep, ee⟩, path := path, ae := ae, recovery := rc, pre := pre, sniffTab := tab, ops := ops }
 
 /-- http.DetectContentType as shipped by the harness (looked up on the first 512 bytes); an
     argument the harness did not anticipate yields a marker that cannot equal a real type -/
@@ -130,8 +133,8 @@ def step (line : String) : String :=
     match runP pCase inp, runP (do let a ← pObs; let b ← pObs; pure (a, b)) obs with
     | some c, some (op, ow) =>
       let sn := sniffOf c.sniffTab
-      let mp := runPlain sn c.ops
-      let mw := if c.asis then runWithAsIs sn c.cfg c.path c.ae c.ops else runWith sn c.cfg c.path c.ae c.ops
+      let mp := runPlain sn c.pre c.ops
+      let mw := if c.asis then runWithAsIs sn c.cfg c.path c.ae c.ops else runWith sn c.cfg c.path c.ae c.pre c.ops
       let mi := obsMatchesPlain mp op && obsMatchesWith mw ow
       -- the oracle, on what the implementation did
       let s := match op, ow with
